@@ -66,14 +66,15 @@ def build(ctx):
     eng = ctx.engine('lib', loop_bound=12)
     ctx.bounds = {'raw-string sharps': '0..3 with 4 look-ahead characters (any scalar values, text may end anywhere)',
                   'comment slices per text (safety net)': '<= 2 slices of symbolic kind and uninterpreted text in each of the two texts',
-                  'segmentation': 'one CharClasses::next step from each comment-tracking status, current character and 2 look-ahead characters symbolic, nesting depth symbolic'}
+                  'segmentation': 'one CharClasses::next step from each of the 14 statuses (comment-tracking and literal-tracking), current character and 2 look-ahead characters symbolic, nesting depth / number of sharps symbolic (< 2^20)'}
     ctx.outside = ['rewriters other than format_stmt / format_expr / rewrite_static calling the safety net; list-item comment attachment; close_block; rewrite_comment word preservation (spans / AST / graphemes)',
-                   'agreement of the string / char-literal / lifetime part of the segmentation with the Rust lexer on whole texts',
+                   'agreement of the segmentation with the Rust lexer on whole texts (one step per status is decided; byte / C string prefixes, raw identifiers and unicode escapes are not distinguished by the scanner and not by the reference grammar used here)',
                    'CommentReducer itself (payload is an uninterpreted function of the comment text here)', 'UngroupedCommentCodeSlices (slices are harness-supplied)']
     ctx.assumptions = ['itertools MultiPeek cursor semantics', 'tracing debug! output disabled', 'payload(comment text) is an uninterpreted function; concatenation of at most two payloads compared as sequences']
     part_raw_suffix(ctx, eng)
     part_safety_net(ctx, eng)
     part_segmentation_step(ctx, eng)
+    part_literal_step(ctx, eng)
     part_net_wiring(ctx, eng)
     validate(ctx)
 
@@ -298,6 +299,116 @@ def part_segmentation_step(ctx, eng):
         eng.stubs = []
 
 
+# ======================================================================================= (3b) the literal-tracking statuses of the segmentation
+def part_literal_step(ctx, eng):
+    """One CharClasses::next step from each literal-tracking status (and the literal-opening part of Normal) against the lexical grammar
+    of Rust literals: a string runs to the next unescaped `"`, a character literal starts at `'` followed by a backslash or by one character and
+    `'` (anything else is a lifetime), a raw string r#..#"..."#..# is delimited by its sharps; no character inside a literal is labelled comment
+    and no literal status is left except by its closing delimiter.  (What swallows or invents a comment for the safety net is exactly a wrong
+    literal boundary.)"""
+    rp = make_replay(ctx, 'literals')
+    nx = None
+    for r in eng.records:
+        if r['is_plain'] and r['method'] == 'next' and r['file'] == CF and r['trait'] == 'Iterator' and 'CharClasses' in (eng._first_param_ty(r) or ''):
+            nx = r['name']
+    sv = eng.enum_variants('CharClassesStatus')
+    kv = eng.enum_variants('FullCodeCharKind')
+    K = {k: i for i, k in enumerate(kv)}
+    S = {k: i for i, k in enumerate(sv)}
+    cf = [n for n, _ in eng.src.struct_fields('CharClasses', CF)]
+    QUOTE, APOS, BSL, SHARP, R = 34, 39, 92, 35, 114
+    for status in ('Normal', 'LitString', 'LitStringEscape', 'LitChar', 'LitCharEscape', 'RawStringPrefix', 'LitRawString', 'RawStringSuffix'):
+        la = sym_chars(3)
+        install_multipeek(eng, la)
+        suffix_follows = z3.Bool('raw_suffix_follows')
+        asked = []
+
+        def raw_suffix(e, s_, a, c):
+            s_.trace.append(('suffix_arg', a[1]))
+            return suffix_follows
+        eng.stub(r'(^|::)is_raw_string_suffix::<', raw_suffix, 'is_raw_string_suffix(base, n) = symbolic (decided separately in part 1); n is observed')
+        st = State()
+        for f in char_facts(la):
+            st.assume(f)
+        st.assume(la[0][1])
+        sharps = BV(z3.BitVec('sharps', 32), 'u32')
+        st.assume(z3.ULT(sharps.e, 1 << 20))
+        if status == 'RawStringSuffix':
+            st.assume(z3.UGE(sharps.e, 1))       # the status is only entered with the sharps still to come
+        has_pl = status in ('RawStringPrefix', 'LitRawString', 'RawStringSuffix')
+        vals = [None] * len(cf)
+        vals[cf.index('base')] = Tup([bv_const(0, 'usize'), bv_const(0, 'usize')], 'MultiPeek')
+        vals[cf.index('status')] = Enum('CharClassesStatus', S[status], {S[status]: Tup([sharps] if has_pl else [])})
+        selfref = eng.ref_to(st, Tup(vals, 'CharClasses'), True)
+        outs = ctx.check_outcomes(eng.run(nx, [selfref], st), 'CharClasses::next from ' + status)
+        cur, n1, n2 = la[0][0].e, la[1][0].e, la[2][0].e
+        has1, has2 = la[1][1], la[2][1]
+        mv = [cur, n1, n2, sharps.e, has1, has2, suffix_follows]
+        for pi, o in enumerate(outs):
+            tag = 'CharClasses::next/literal/%s/p%d' % (status, pi)
+            if o.kind != 'ret':
+                ctx.prop(tag + '/no-panic', o.state.pc, z3.BoolVal(True), mv, rp, twin=False)
+                continue
+            v = o.value
+            if 1 not in v.payloads:
+                continue
+            kind = v.payloads[1].items[0].items[0]
+            after = eng.read_ref(o.state, selfref).items[cf.index('status')]
+            is_comment_kind = z3.Or([kind.discr == K[k] for k in ('StartComment', 'InComment', 'EndComment', 'StartStringCommented', 'InStringCommented', 'EndStringCommented')])
+            in_string = kind.discr == K['InString']
+
+            def st_is(name, n=None):
+                c = after.discr == S[name]
+                if n is not None:
+                    pl = after.payloads.get(S[name])
+                    if pl is None or not pl.items:
+                        return z3.BoolVal(False)
+                    c = z3.And(c, pl.items[0].e == n)
+                return c
+            pc = o.state.pc + [v.discr == 1]
+            for t in o.state.trace:
+                if t[0] == 'suffix_arg':
+                    ctx.prop(tag + '/the-suffix-is-looked-for-with-the-number-of-sharps-of-the-prefix', pc, t[1].e != sharps.e, mv, rp, twin=False)
+            if status == 'Normal':
+                lit_start = z3.Or(cur == QUOTE, cur == APOS, z3.And(cur == R, has1, z3.Or(n1 == SHARP, n1 == QUOTE)))
+                starts_comment = z3.And(cur == 47, has1, z3.Or(n1 == 42, n1 == 47))
+                char_lit = z3.And(cur == APOS, z3.Or(z3.And(has1, n1 == BSL), z3.And(has2, n2 == APOS)))
+                ctx.prop(tag + '/a-double-quote-opens-a-string', pc, z3.And(cur == QUOTE, z3.Not(z3.And(st_is('LitString'), in_string))), mv, rp)
+                ctx.prop(tag + '/an-apostrophe-opens-a-character-literal-iff-a-backslash-or-x-apostrophe-follows', pc,
+                         z3.And(cur == APOS, z3.Or(z3.And(char_lit, z3.Not(st_is('LitChar'))), z3.And(z3.Not(char_lit), z3.Not(st_is('Normal'))))), mv, rp)
+                ctx.prop(tag + '/r-followed-by-sharp-or-quote-opens-a-raw-string', pc,
+                         z3.And(cur == R, has1, z3.Or(n1 == SHARP, n1 == QUOTE), z3.Not(z3.And(st_is('RawStringPrefix', 0), in_string))), mv, rp)
+                ctx.prop(tag + '/nothing-else-leaves-the-code-status', pc, z3.And(z3.Not(lit_start), z3.Not(starts_comment), z3.Not(z3.And(st_is('Normal'), kind.discr == K['Normal']))), mv, rp)
+                continue
+            ctx.prop(tag + '/no-character-of-a-literal-is-labelled-comment', pc, is_comment_kind, mv, rp)
+            if status == 'LitString':
+                ctx.prop(tag + '/a-string-ends-at-an-unescaped-quote-only', pc,
+                         z3.Or(z3.Not(in_string), z3.And(cur == QUOTE, z3.Not(st_is('Normal'))), z3.And(cur == BSL, z3.Not(st_is('LitStringEscape'))),
+                               z3.And(cur != QUOTE, cur != BSL, z3.Not(st_is('LitString')))), mv, rp)
+            elif status == 'LitStringEscape':
+                ctx.prop(tag + '/the-escaped-character-stays-in-the-string', pc, z3.Not(z3.And(st_is('LitString'), in_string)), mv, rp)
+            elif status == 'LitChar':
+                ctx.prop(tag + '/a-character-literal-ends-at-an-unescaped-apostrophe-only', pc,
+                         z3.Or(z3.And(cur == APOS, z3.Not(st_is('Normal'))), z3.And(cur == BSL, z3.Not(st_is('LitCharEscape'))),
+                               z3.And(cur != APOS, cur != BSL, z3.Not(st_is('LitChar')))), mv, rp)
+            elif status == 'LitCharEscape':
+                ctx.prop(tag + '/the-escaped-character-stays-in-the-literal', pc, z3.Not(st_is('LitChar')), mv, rp)
+            elif status == 'RawStringPrefix':
+                ctx.prop(tag + '/sharps-are-counted-and-the-quote-opens-the-body', pc,
+                         z3.Or(z3.And(cur == SHARP, z3.Not(z3.And(st_is('RawStringPrefix', sharps.e + 1), in_string))),
+                               z3.And(cur == QUOTE, z3.Not(z3.And(st_is('LitRawString', sharps.e), in_string)))), mv, rp)
+            elif status == 'LitRawString':
+                ctx.prop(tag + '/a-raw-string-ends-at-a-quote-followed-by-its-sharps-only', pc,
+                         z3.Or(z3.And(cur != QUOTE, z3.Not(z3.And(st_is('LitRawString', sharps.e), in_string))),
+                               z3.And(cur == QUOTE, sharps.e == 0, z3.Not(st_is('Normal'))),
+                               z3.And(cur == QUOTE, sharps.e != 0, suffix_follows, z3.Not(z3.And(st_is('RawStringSuffix', sharps.e), in_string))),
+                               z3.And(cur == QUOTE, sharps.e != 0, z3.Not(suffix_follows), z3.Not(z3.And(st_is('LitRawString', sharps.e), in_string)))), mv, rp)
+            elif status == 'RawStringSuffix':
+                ctx.prop(tag + '/the-closing-sharps-are-counted-down', pc,
+                         z3.And(cur == SHARP, z3.Or(z3.And(sharps.e == 1, z3.Not(st_is('Normal'))), z3.And(sharps.e != 1, z3.Not(z3.And(st_is('RawStringSuffix', sharps.e - 1), in_string))))), mv, rp)
+        eng.stubs = []
+
+
 # ======================================================================================= (4) every rewriter named in the anchors hands its result to the safety net
 WIRED = [
     dict(method='format_stmt', kind='result', strict=True),        # stmt.rs: the value returned IS the net's result
@@ -401,6 +512,18 @@ CASES = [
 ]
 
 
+LITERAL_CASES = [
+    ('escaped double quote as a character', 'fn f(c: char) -> bool {\n    let e = c == \'\\"\' || /* lit1 */ c == \'x\';\n    e\n}\n', ['lit1']),
+    ('escaped apostrophe as a character', "fn f(c: char) -> bool {\n    let e = c == '\\'' || /* lit2 */ c == 'x';\n    e\n}\n", ['lit2']),
+    ('double quote as a character', 'fn f(c: char) -> bool {\n    let e = c == \'"\' || /* lit3 */ c == \'x\';\n    e\n}\n', ['lit3']),
+    ('byte literal with an escaped quote', 'fn f(c: u8) -> bool {\n    let e = c == b\'\\"\' || /* lit4 */ c == b\'x\';\n    e\n}\n', ['lit4']),
+    ('string ending in an escaped backslash', 'fn f(s: &str) -> bool {\n    let e = s == "a\\\\" || /* lit5 */ s == "b";\n    e\n}\n', ['lit5']),
+    ('string with an escaped quote and comment openers', 'fn f(s: &str) -> bool {\n    let e = s == "\\"/*" || /* lit6 */ s == "//";\n    e\n}\n', ['lit6']),
+    ('lifetime then comment', "fn f<'a>(x: &'a u8, y: &'a u8) -> bool {\n    let e = x == y || /* lit7 */ *x == 1;\n    e\n}\n", ['lit7']),
+    ('raw string with quote and sharps', 'fn f(s: &str) -> bool {\n    let e = s == r##"a"#b"## || /* lit8 */ s == r"c";\n    e\n}\n', ['lit8']),
+]
+
+
 WIRING_CASES = [
     ('const with value', 'const /* w1 */ A: u8 = 1;\n', ['w1']),
     ('static with value', 'static B /* w2 */ : u8 = 2;\n', ['w2']),
@@ -418,7 +541,7 @@ def native_findings(which=None):
     shutil.rmtree(d, ignore_errors=True)
     os.makedirs(d)
     found = []
-    for name, src, words in (WIRING_CASES if which == 'wiring' else CASES + WIRING_CASES):
+    for name, src, words in (WIRING_CASES if which == 'wiring' else LITERAL_CASES if which == 'literals' else CASES + WIRING_CASES + LITERAL_CASES):
         p = os.path.join(d, 'x.rs')
         open(p, 'w').write(src)
         for cfg in ('max_width=100', 'max_width=40', 'normalize_comments=true,wrap_comments=true'):
